@@ -495,7 +495,10 @@ func (fs *fileStore) flush(out *os.File, fields core.Fields, filter goexpr.Expr,
 			}
 		}()
 
-		_, err = fs.iterate(fields, ms, !shouldSort, !disallowRaw, write)
+		// raw pass-through is only usable when not sorting: a sorted flush has to
+		// re-encode every row, and a raw row handed to doWrite while sorting
+		// carries no columns and would be dropped from the new file
+		_, err = fs.iterate(fields, ms, !shouldSort, !disallowRaw && !shouldSort, write)
 		return
 	}
 
